@@ -248,6 +248,13 @@ def build_inputs(ctx):
     out = [(c['name'], c['input']) for c in corpus('report')]
     out += [(n, t) for n, t in configs.example_texts(ctx, slow=not ctx.quick) if not ctx.quick or n in QUICK_EXAMPLES]
     out += targeted(ctx)
+    sutra = dict(configs.example_texts(ctx, slow=True)).get('SUTRAExample1.txt')
+    if sutra:   # the SUTRA writer (its own PrintOutputs): the shipped example and variants through every guard of that writer
+        variants = [('', [])] if ctx.quick else [('', []), ('-fcr', [('Economic Model', 1), ('Fixed Charge Rate', 0.07)]),
+                                                 ('-bicycle', [('Economic Model', 3), ('Inflation Rate During Construction', 0.04)]),
+                                                 ('-discount9', [('Discount Rate', 0.09), ('Plant Lifetime', 25)])]
+        variants.append(('-injcost', [('Injection Well Drilling and Completion Capital Cost Adjustment Factor', 1.35), ('Economic Model', 1 if ctx.quick else 2)]))
+        out += [(f'SUTRAExample1{s}', sutra + '\n' + runner.params_to_text(pairs)) for s, pairs in variants]
     ex1 = dict(configs.example_texts(ctx)).get('example1.txt', '')
     for i in range(ctx.n(2, 24)):
         out.append((f'example1+units{i}', ex1 + '\n' + unit_override_lines(i + 1)))
@@ -493,6 +500,7 @@ def report_correspondence(ctx, spec, inputs, proofs_ok, batch=160):
     stats = Counter()
     nodes = node_index(spec)
     executed = set()
+    per_line = Counter()      # specification line -> number of runs that print it
     before = len(ctx.violations)
     sigs = set()
     nterms = 0
@@ -508,6 +516,7 @@ def report_correspondence(ctx, spec, inputs, proofs_ok, batch=160):
             prepost_clause(ctx, name, text, r, stats)
             if R is not None:
                 executed |= R.executed | {('stmt', s) for s in R.executed_stmts}
+                per_line.update(R.executed)
                 sigs.add(tuple(sorted(R.executed)))
         del res
         terms = list(col.terms)
@@ -542,7 +551,9 @@ def report_correspondence(ctx, spec, inputs, proofs_ok, batch=160):
             return 'needs the external TOUGH2 executable (not available offline)'
         return 'not reached'
     unex = [(n['line'], gen.label_of(n)[:40], why(c)) for i, (c, n) in sorted(nodes.items()) if i not in executed]
-    ctx.count('spec-line-coverage', exercised=sum(1 for i in nodes if i in executed), total=len(nodes))
+    ctx.count('spec-line-coverage', exercised=sum(1 for i in nodes if i in executed), total=len(nodes),
+              runs_per_line={f'{"main" if i < 10000 else "addons" if i < 20000 else "sdac"}:{n["line"]}:{gen.label_of(n)[:32]}': per_line[i]
+                             for i, (c, n) in sorted(nodes.items())})
     if unex:
         ctx.note(f'specified lines no run exercised ({len(unex)} of {len(nodes)}): {unex}')
     findings = fw.load_findings()
